@@ -708,6 +708,19 @@ func (m *repoManager) loadVersion0() error {
 		}
 	}
 
+	// A version id cached for a UUID that no loaded repo contains is the trace of a new
+	// repo, version, branch or merge whose process died between the id-cache write and the
+	// repo save.  Drop it so the interrupted operation is entirely absent and can be retried
+	// with the same UUID.  (The next-id counter is untouched, so the id is not handed out again.)
+	for v, uuid := range m.versionToUUID {
+		if m.repos[uuid] == nil {
+			dvid.TimeInfof("Found version id %d (uuid %s) that is in no repo... deleting.\n", v, uuid)
+			delete(m.versionToUUID, v)
+			delete(m.uuidToVersion, uuid)
+			saveCache = true
+		}
+	}
+
 	// If we noticed missing or corrupt cache entries, save current metadata.
 	if saveCache {
 		if err := m.putCaches(); err != nil {
